@@ -109,6 +109,13 @@ META = {
                   "battery meter, a mixed meter, at the grid); the model keeps batteries as ids inside BatInv and assumes "
                   "nothing about disjointness, the battery theorems sum inverter powers, and a battery pool is requested by "
                   "battery ids (defined iff every inverter of a requested battery has all its batteries requested). "
+                  "EV-charger pools over a subset of the chargers are generated, modelled (ev_pool_terms) and judged. "
+                  "WHICH streams a formula reads is judged on values too: every formula is also evaluated with each dedicated "
+                  "meter offset from the sum of its successors and compared with the documented choice of sources "
+                  "(graph.spec_sources, written from the docstrings independently of the Coq model; for EV chargers both the "
+                  "chargers and - under the all-successors-requested rule - their meter are accepted), and a dedicated meter used "
+                  "as primary must name exactly its successors as fallback. Every formula is generated twice per graph object "
+                  "(other namespace, reverse order) and must come out the same. "
                   "Statefulness of the graph OBJECT (anything it remembers across refresh_from) is not in the model, which is "
                   "per topology; it is tied by the `refresh` stream, which takes one graph object through 2-3 topologies that "
                   "re-use the component ids and compares all formulas with the model/oracle of the current topology each time. "
